@@ -1527,12 +1527,14 @@ pub fn gen_corpus_with(seed: u64, n_fam: usize, q_per_fam: usize, adv: bool) -> 
             let ascii40k = "abcdefgh".repeat(5120);
             let multi40k = format!("{}{}", "é".repeat(10240), "abcdefgh".repeat(2560));
             let mut fam = vec![];
-            for t in [mk2(300, "ab"), mk2(200, "ab"), mk2(20, &ascii40k), mk2(20, &multi40k)] {
+            // and a string beyond 64 KiB, the subject of regex filters
+            let ascii70k = "abcdefgh".repeat(8960);
+            for t in [mk2(300, "ab"), mk2(200, "ab"), mk2(20, &ascii40k), mk2(20, &multi40k), mk2(20, &ascii70k)] {
                 contents.push(t);
                 fam.push(contents.len() - 1);
             }
             let mut fq = vec![];
-            for q in ["$[?length(@) > 250]", "$..[?length(@) >= 200]", "$[?length(@) > 30000]", "$.u[?length(@) == 40960]", "$[?length(@) == 300 || length(@) == 40960]", "$[?length(@) == 200]", "$.wide.k250", "$.wide[?@ == 3]", "$.s"] {
+            for q in ["$[?length(@) > 250]", "$..[?length(@) >= 200]", "$[?length(@) > 30000]", "$.u[?length(@) == 40960]", "$[?length(@) == 300 || length(@) == 40960]", "$[?length(@) == 200]", "$.wide.k250", "$.wide[?@ == 3]", "$.s", "$[?search(@, 'gh$')]", "$[?match(@, '(abcdefgh)+')]", "$.u[?search(@, 'hab')]", "$[?search(@, 'é')]", "$[?match(@, 'ab')]"] {
                 queries.push(q.to_string());
                 fq.push(queries.len() - 1);
                 q_other_family.push(f);
